@@ -54,6 +54,7 @@ export const PROBES = [
 // that told the two behaviours apart; `expect` is TypeScript's verdict, "diagnostic" a refusal.
 const fn0 = () => 1;
 export const TEXT_PROBES = [
+  { id: "conditional-inside-a-distributing-conditional", text: 'type U = "a" | "b";\ntype Inner<T> = T extends "a" ? 1 : 2;\ntype Outer<T> = T extends string ? Inner<U> : never;\ntype X = Outer<U>;', cases: [[1, "Y"], [2, "Y"], [3, "N"]] },
   { id: "required-takes-undefined-out", text: "type U = string | undefined;\ntype X = Required<{ a?: string | undefined; b?: number | null; c?: U }>;", cases: [[{ a: "s", b: 1, c: "t" }, "Y"], [{ b: 1, c: "t" }, "N"], [{ a: "s", b: null, c: "t" }, "Y"], [{ a: "s", b: 1 }, "N"], [{ a: null, b: 1, c: "t" }, "N"]] },
   { id: "never-in-template-hole-union", text: 'type T = never | "A" | "b";\ntype X = `${number}$${T}-`;', cases: [["1$A-", "Y"], ["1$c-", "N"]] },
   { id: "same-member-twice-in-union", text: 'type T0 = { tag: "a"; k: 1 };\ntype T1 = T0 | T0;\ntype X = Omit<T1, "tag">;', cases: [[{ k: 1 }, "Y"], [{ k: 2 }, "N"]] },
